@@ -374,6 +374,8 @@ def run_stats(sc, hist, violations):
                     bump("reload_of_edited_argument")
                 if ev.get("reload") == "deepcopy-fallback":
                     bump("edited_argument_not_json_serialisable")
+        if ev.get("env"):
+            bump("process_wide_state_left_changed_by_a_step (numpy errstate / warnings filters)")
         if ev.get("chg"):
             edits += 1
             for a, c in ev["chg"].items():
@@ -496,7 +498,7 @@ def execute(sc, surface, ops=None, want_trace=False, max_viol=5):
         res["scenario"] = sc
         res["ops"] = hist["ops"]
         res["events"] = [
-            {k: ev[k] for k in ("i", "op", "d", "s", "x", "sid", "chg", "reload") if k in ev} for ev in hist["events"]
+            {k: ev[k] for k in ("i", "op", "d", "s", "x", "sid", "chg", "reload", "env") if k in ev} for ev in hist["events"]
         ]
     return res
 
